@@ -74,7 +74,7 @@ func crashWriter(ctx *Ctx) error {
 		case "compact":
 			worker := dsvc.NewCompactor(s.core.Store, s.core.Dsm, zap.NewNop().Sugar())
 			_, err = worker.VerifCompactSync(op.DS, op.Reader)
-		case "inject", "inject-sametime":
+		case "inject", "inject-sametime", "inject-bytecopy":
 			// needs the internal id of the entity: read it from the listing
 			if ds := s.core.Dsm.GetDataset(op.DS); ds != nil {
 				l, _ := obs.Listing(s.core.Store, ds, 0)
@@ -82,7 +82,7 @@ func crashWriter(ctx *Ctx) error {
 					s.iids[r.ID] = r.InternalID
 				}
 			}
-			err = s.injectDuplicate(op.DS, op.To, op.Kind == "inject-sametime")
+			err = s.injectDuplicate(op.DS, op.To, op.Kind == "inject-sametime", op.Kind == "inject-bytecopy")
 		default:
 			err = s.apply(op)
 		}
@@ -423,7 +423,7 @@ func applyOpToModel(m *model.Hub, op SDOp) {
 		m.Delete(op.DS)
 	case "rename":
 		m.Rename(op.DS, op.To)
-	case "inject", "inject-sametime":
+	case "inject", "inject-sametime", "inject-bytecopy":
 		if d := m.Live(op.DS); d != nil {
 			var last *model.Version
 			for _, v := range d.Versions {
@@ -433,7 +433,7 @@ func applyOpToModel(m *model.Hub, op SDOp) {
 			}
 			if last != nil {
 				commit := last.Commit
-				if op.Kind == "inject" {
+				if op.Kind != "inject-sametime" {
 					m.Commit++
 					commit = m.Commit
 				}
